@@ -41,12 +41,28 @@ static inline ABT_pool ABTI_pool_get_handle(ABTI_pool *p_pool)
 /* A ULT is blocked and is waiting for going back to this pool */
 static inline void ABTI_pool_inc_num_blocked(ABTI_pool *p_pool)
 {
+#ifdef ABT_VERIF
+    if (ABTI_VERIF_ON()) {
+        ABTI_VERIF_BEGIN();
+        int32_t verif_old = ABTD_atomic_fetch_add_int32(&p_pool->num_blocked, 1);
+        ABTI_VERIF_END(ABTI_VEV_NB_ADD, p_pool, 1, verif_old);
+        return;
+    }
+#endif
     ABTD_atomic_fetch_add_int32(&p_pool->num_blocked, 1);
 }
 
 /* A blocked ULT is back in the pool */
 static inline void ABTI_pool_dec_num_blocked(ABTI_pool *p_pool)
 {
+#ifdef ABT_VERIF
+    if (ABTI_VERIF_ON()) {
+        ABTI_VERIF_BEGIN();
+        int32_t verif_old = ABTD_atomic_fetch_sub_int32(&p_pool->num_blocked, 1);
+        ABTI_VERIF_END(ABTI_VEV_NB_ADD, p_pool, 2, verif_old);
+        return;
+    }
+#endif
     ABTD_atomic_fetch_sub_int32(&p_pool->num_blocked, 1);
 }
 
@@ -63,7 +79,9 @@ static inline void ABTI_pool_add_thread(ABTI_thread *p_thread,
 {
     /* Set the ULT's state as READY. The relaxed version is used since the state
      * is synchronized by the following pool operation. */
+    ABTI_VERIF_BEGIN();
     ABTD_atomic_relaxed_store_int(&p_thread->state, ABT_THREAD_STATE_READY);
+    ABTI_VERIF_END(ABTI_VEV_STATE, p_thread, ABT_THREAD_STATE_READY, 0);
     /* Add the ULT to the associated pool */
     ABTI_pool_push(p_thread->p_pool, p_thread->unit, context);
 }
